@@ -494,7 +494,43 @@ def replay_parse(case):
     return {"reproduced": bool(failed), "failed": failed, "detail": "; ".join(failed)[:600] or "ok"}
 
 
-REPLAYERS = {'construct': replay_construct, 'stream': replay_stream, 'socket': replay_stream, 'parse': replay_parse}
+def replay_crc(case):
+    from pyrtcm.rtcmhelpers import calc_crc24q, crc2bytes
+    d = bytes.fromhex(case['data'])
+    failed = []
+    ref = crc24q_ref(d)
+    if crc24q_table(d) != ref:
+        return {"reproduced": None, "detail": "reference implementations disagree"}
+    try:
+        got = calc_crc24q(d)
+        if got != ref:
+            failed.append(f"calc_crc24q({d.hex()[:40]}..)={got!r}, CRC-24Q is {ref:#08x}")
+        b = crc2bytes(d)
+        if b != ref.to_bytes(3, "big"):
+            failed.append(f"crc2bytes gives {b!r}, expected {ref.to_bytes(3, 'big')!r}")
+        if calc_crc24q(d + ref.to_bytes(3, "big")) != 0:
+            failed.append("CRC over message plus its checksum is not zero")
+    except Exception as e:  # noqa
+        failed.append(f"exception {type(e).__name__}: {e}")
+    return {"reproduced": bool(failed), "failed": failed, "detail": "; ".join(failed)[:500] or "ok"}
+
+
+def replay_crcseq(case):
+    from pyrtcm.rtcmhelpers import calc_crc24q
+    failed = []
+    for i, h in enumerate(case['seq']):
+        d = bytes.fromhex(h)
+        try:
+            got = calc_crc24q(d)
+        except Exception as e:  # noqa
+            failed.append(f"call {i}: {type(e).__name__}: {e}")
+            continue
+        if got != crc24q_ref(d):
+            failed.append(f"call {i}: calc_crc24q({d.hex()}) = {got:#x}, CRC-24Q is {crc24q_ref(d):#x} (after {i} earlier calls)")
+    return {"reproduced": bool(failed), "failed": failed, "detail": "; ".join(failed)[:500] or "ok"}
+
+
+REPLAYERS = {'crcseq': replay_crcseq, 'crc': replay_crc, 'construct': replay_construct, 'stream': replay_stream, 'socket': replay_stream, 'parse': replay_parse}
 
 
 def replay(case):
